@@ -90,6 +90,9 @@ def check(ctx: Ctx) -> None:
 
     conversions(ctx)
     ownership.check_no_internal_escape(ctx, "TS8")
+    from ..engines.mustflow import check_sorted_invariant
+    nsi = check_sorted_invariant(ctx, "ABS-SORTED")
+    ctx.floor("AbsoluteSequence methods that change times/order", nsi, 4)
 
 
 def _judge(ctx: Ctx, file, fi, label, exits, problems, rule_exit="TS1"):
